@@ -51,6 +51,9 @@ pub open spec fn exact_faults<D: Buf, E>(rem: u64, item: Poll<Option<Result<D, E
     &&& (item matches Poll::Ready(Some(Err(_))) ==> r matches Poll::Ready(Some(Err(_))))
     &&& ((item matches Poll::Ready(None) && rem != 0) ==> r matches Poll::Ready(Some(Err(_))))
     &&& (item matches Poll::Ready(Some(Ok(d))) ==> (d.bytes().len() > rem ==> r matches Poll::Ready(Some(Err(_)))))
+    // a clean end is only ever reported when the entity's stream itself has ended (and everything was delivered): while the
+    // stream is merely pending, a failure or surplus data may still come, and must not be cut off by an early end
+    &&& (r matches Poll::Ready(None) ==> (item matches Poll::Ready(None) && rem == 0))
 }
 /// C02 projection: a data frame is the entity's chunk, unchanged.
 pub open spec fn exact_identity<D: Buf, E>(item: Poll<Option<Result<D, E>>>, r: Poll<Option<Result<D, E>>>) -> bool {
